@@ -7,8 +7,8 @@ VERIF = os.path.dirname(os.path.dirname(os.path.abspath(__file__)))
 MC = "model_checking"
 CHECKS = {
     "C12": dict(
-        technique="TLA+ spec PeekingLexer checked exhaustively by TLC; every explored transition replayed into the real lexer.PeekingLexer; recorded random traces validated by Trace_PeekingLexer",
-        text="TLC explores every stream up to the bound, every operation with every argument in every reachable state, checking the cursor invariants and action properties of the specification; each explored transition is replayed on the real object and all observations compared (transition coverage), and random traces of the real object are accepted step by step by the trace specification. Exhaustive within the bound on stream length; beyond it seeded traces.",
+        technique="TLA+ spec PeekingLexer checked exhaustively by TLC; every explored transition replayed into the real lexer.PeekingLexer; recorded random traces validated by Trace_PeekingLexer; cursor invariant shown inductive by Apalache for longer symbolic streams",
+        text="TLC explores every stream up to the bound, every operation with every argument in every reachable state, checking the cursor invariants and action properties of the specification; each explored transition is replayed on the real object and all observations compared (transition coverage), and random traces of the real object are accepted step by step by the trace specification. Exhaustive within the bound on stream length; beyond it seeded traces, and an Apalache check that the cursor invariant is inductive (loops abstracted by their postconditions) for all streams up to 10/14 tokens with symbolic contents.",
         note="Trusted: TLC, the harness's observation of token identity through distinct Value/Pos; match predicates limited to 4 subsets of 3 token kinds.",
         ref="4/C12, 3.2"),
     "C03": dict(
